@@ -17,6 +17,7 @@ func init() {
 
 func ruleLayout(c *Ctx) {
 	c.R.Rule("LAYOUT", 5, "every index into an object value's field slice (ObjVal.V) comes from that value's own layout (its own Type.Obj().Index / a range over its own V), or fills a freshly constructed object; an index taken from the static type (MemberExpr.Index, a bytecode operand) or from another object's layout is only sound if type equality were position-sensitive, which it is not (equalsObj matches fields by name)")
+	c.objCtorLemma("LAYOUT-3")
 	vField := c.Field("val", "ObjVal", "V")
 	if vField == nil {
 		c.R.Anchor("val.ObjVal.V")
